@@ -167,7 +167,9 @@ def master(tier, seed):
         "simulated_time": "not applicable: the system has no clock, timer or timeout; logical steps are reported instead",
         "real_components": ["pyab_experiment (lexer, LR parser, pydantic AST, code generator, compile/exec)", "pydantic", "hashlib"],
         "stubbed_components": ["sys.stdout / sys.stderr (simulator stream that can fail writes or be None)",
-                               "global random (re-seeded identically before the real and the model call)"],
+                               "global random (re-seeded identically before the real and the model call)",
+                               "threading.Lock / RLock (a lock left held shows as 'operation never returns' instead of a hang)",
+                               "the run's disk: private empty HOME / TMPDIR per forked run"],
         "workers": common.n_workers(),
     }
     common.write_evidence(PROP, tier, seed, cov, wall, len(paths),
